@@ -1,3 +1,4 @@
+CONSTANT Mechanism = "native"
 CONSTANTS LoopTargetsSupported = FALSE  WithRewritten = FALSE  FallOffRewritten = FALSE
 INIT InitX
 NEXT Next
